@@ -216,7 +216,7 @@ def run(ctx):
                        "by (and a second one half of the time); judged when the Richardson table converges (error estimate < 1e-4 relative); "
                        "distinct = distinct (formula, variable)")
     nshards = vfcore.NCPU
-    n = ctx.n(12000, 500000)
+    n = ctx.n(10000, 300000)
     with cf.ProcessPoolExecutor(nshards) as ex:
         outs = list(ex.map(shard, [(ctx.seed, i, (n + nshards - 1) // nshards, str(b), str(ctx.work), csts) for i in range(nshards)]))
     st = c13.fold(ctx, outs, "differentiation")
